@@ -350,9 +350,8 @@ def run(tier, seed):
         chk.violation("spec:RBM:" + str(res.violation), dict(tlc=res.raw[-4000:]))
         return chk.finish()
     exps = res.exports
-    if quick:
-        enum = [e for e in exps if e["idx"] == 0]
-        exps = [e for e in exps if e["idx"] > 0] + rng.sample(enum, min(300, len(enum)))
+    enum = [e for e in exps if e["idx"] == 0]
+    exps = [e for e in exps if e["idx"] > 0] + rng.sample(enum, min(300 if quick else 20000, len(enum)))
     for n, e in enumerate(exps):
         replay_plain(chk, e, n)
         chk.nontriv(("plain", e["nv"], e["nh"], e["B"], str(e["am"])))
@@ -374,8 +373,8 @@ def run(tier, seed):
         chk.violation("spec:PurifRBM:" + str(res2.violation), dict(tlc=res2.raw[-4000:]))
         return chk.finish()
     exps2 = res2.exports
-    if quick and len(exps2) > 400:
-        exps2 = rng.sample(exps2, 400)
+    if len(exps2) > (400 if quick else 8000):
+        exps2 = rng.sample(exps2, 400 if quick else 8000)
     for n, e in enumerate(exps2):
         replay_purif(chk, e, n)
         chk.nontriv(("purif", str(e["pt"])))
